@@ -333,6 +333,52 @@ def run(report, p):
     report.assume("lxml's escaping (E builder, etree.tostring) and iterparse are inverse of each other for text without control characters")
     report.assume("textwrap.indent only adds leading blanks in front of lines that start with an element (values contain no line breaks)")
 
+    crd = p.funcs.get("ascmhl.chain_xml_parser.parse")
+    if crd is None:
+        raise AnalysisError("chain reader not found")
+    # ------------------------------------------------------------------ R10.8
+    r8 = report.rule(
+        "R10.8",
+        "the readers consume the whole document: the loop over the parser events (etree.iterparse) of the manifest reader and of the chain reader is never left by `break` or "
+        "`return`, iterates the event stream itself (no slice / filter around it) and the events requested stay ('start', 'end') - whatever lies behind the point where a reader "
+        "stops is silently missing from the loaded history (records, references), for every command that loads it",
+        2,
+    )
+    for rf in (rd, crd):
+        loops = [n for n in walk_no_nested(rf.node) if isinstance(n, ast.For) and any(isinstance(x, ast.Call) and norm(x.func).endswith("iterparse") for x in ast.walk(n.iter))]
+        if not loops:
+            # the event stream may be bound to a name first
+            for n in walk_no_nested(rf.node):
+                if isinstance(n, ast.For) and isinstance(n.iter, ast.Name):
+                    try:
+                        if any(any(s_[0] == "call" and s_[1].endswith("iterparse") for s_ in subterms(o)) for o in pr.origins(n.iter, rf)):
+                            loops.append(n)
+                    except AnalysisError:
+                        pass
+        if len(loops) != 1:
+            raise AnalysisError(f"{rf.qual}: the loop over the parser events was not found ({len(loops)})")
+        lp = loops[0]
+        r8.instance(rf, lp, f"{rf.module.name.split('.')[-1]}.{rf.name}: for {norm(lp.target)} in {norm(lp.iter)[:50]}")
+        it_call = next((x for x in ast.walk(lp.iter) if isinstance(x, ast.Call) and norm(x.func).endswith("iterparse")), None)
+        r8.check(it_call is None or lp.iter is it_call, rf, lp, f"the reader iterates `{norm(lp.iter)[:60]}`, not the event stream itself: events are dropped or re-ordered before the reader sees them", construct=f"{rf.name}: event stream wrapped")
+        if it_call is not None:
+            ev = next((k.value for k in it_call.keywords if k.arg == "events"), None)
+            evs = p.fold(ev, rf) if ev is not None else None
+            r8.check(ev is not None and evs is not None and set(evs) == {"start", "end"}, rf, it_call, f"the reader asks the parser for events {evs!r}: its state machine opens objects on 'start' and completes them on 'end'", construct=f"{rf.name}: parser events")
+        for n in ast.walk(lp):
+            if isinstance(n, (ast.Break, ast.Return)):
+                # a break belongs to the innermost loop around it
+                x = parent(n)
+                while x is not None and not isinstance(x, (ast.For, ast.While, ast.FunctionDef, ast.AsyncFunctionDef)):
+                    x = parent(x)
+                if isinstance(n, ast.Break) and x is not lp:
+                    continue
+                if isinstance(n, ast.Return) and isinstance(x, (ast.FunctionDef, ast.AsyncFunctionDef)) and x is not rf.node:
+                    continue
+                gr = cfg_of(rf)
+                conds = [norm(t.ast)[:60] + (" is true" if l == "T" else " is false") for t, l in gr.control_deps(gr.node_for(n), through_loops=False) if t.kind == "test"]
+                r8.check(False, rf, n, f"the reader stops reading the document ({'break' if isinstance(n, ast.Break) else 'return'}) when {'; '.join(conds[-3:]) or 'reached'}: every element behind that point is missing from the loaded object - records of files (info -sf prints fewer digests than the manifests hold), references to nested histories, later chain entries", construct=f"{rf.name}: event loop left early")
+
     # ------------------------------------------------------------------ R10.1
     r1 = report.rule(
         "R10.1",
@@ -341,6 +387,10 @@ def run(report, p):
         25,
     )
     rrows, ctx_of_tag = reader_rows(p, rd)
+    if len(rrows) < 20:
+        # the reader's decision table could not be read off `parse` (29 rows on the reference tree): its work was moved into helpers that take the parser
+        # state as an object, or is dispatched through tables - a structure this rule does not model. No verdict.
+        raise AnalysisError(f"manifest reader: only {len(rrows)} (container, tag, slot) assignments could be read off {rd.qual}; the reader's structure is not the state machine this rule models")
     wrows = writer_rows(p, mdoc)
     report.extra["reader_rows"] = {f"{k}": [(a, b, c) for a, b, c, _ in v] for k, v in sorted(rrows.items(), key=str)}
     report.extra["writer_rows"] = {f"{k}": [(a, b, c) for a, b, c, _, _ in v] for k, v in sorted(wrows.items(), key=str)}
@@ -710,49 +760,6 @@ def run(report, p):
             mention = [(a, l) for a, l in at if a.split(" ")[0] == src]
             good = all((a == f"{src} is None" and l == "F") or (a == src and l == "T") for a, l in mention) and bool(mention)
             r6.check(good, rd, n, f"`{norm(n)[:60]}` is applied under {sorted(mention)}: the conversion must run when the attribute is present", construct=f"optional attribute conversion guard: {src}")
-
-    # ------------------------------------------------------------------ R10.8
-    r8 = report.rule(
-        "R10.8",
-        "the readers consume the whole document: the loop over the parser events (etree.iterparse) of the manifest reader and of the chain reader is never left by `break` or "
-        "`return`, iterates the event stream itself (no slice / filter around it) and the events requested stay ('start', 'end') - whatever lies behind the point where a reader "
-        "stops is silently missing from the loaded history (records, references), for every command that loads it",
-        2,
-    )
-    for rf in (rd, crd):
-        loops = [n for n in walk_no_nested(rf.node) if isinstance(n, ast.For) and any(isinstance(x, ast.Call) and norm(x.func).endswith("iterparse") for x in ast.walk(n.iter))]
-        if not loops:
-            # the event stream may be bound to a name first
-            for n in walk_no_nested(rf.node):
-                if isinstance(n, ast.For) and isinstance(n.iter, ast.Name):
-                    try:
-                        if any(any(s_[0] == "call" and s_[1].endswith("iterparse") for s_ in subterms(o)) for o in pr.origins(n.iter, rf)):
-                            loops.append(n)
-                    except AnalysisError:
-                        pass
-        if len(loops) != 1:
-            raise AnalysisError(f"{rf.qual}: the loop over the parser events was not found ({len(loops)})")
-        lp = loops[0]
-        r8.instance(rf, lp, f"{rf.module.name.split('.')[-1]}.{rf.name}: for {norm(lp.target)} in {norm(lp.iter)[:50]}")
-        it_call = next((x for x in ast.walk(lp.iter) if isinstance(x, ast.Call) and norm(x.func).endswith("iterparse")), None)
-        r8.check(it_call is None or lp.iter is it_call, rf, lp, f"the reader iterates `{norm(lp.iter)[:60]}`, not the event stream itself: events are dropped or re-ordered before the reader sees them", construct=f"{rf.name}: event stream wrapped")
-        if it_call is not None:
-            ev = next((k.value for k in it_call.keywords if k.arg == "events"), None)
-            evs = p.fold(ev, rf) if ev is not None else None
-            r8.check(ev is not None and evs is not None and set(evs) == {"start", "end"}, rf, it_call, f"the reader asks the parser for events {evs!r}: its state machine opens objects on 'start' and completes them on 'end'", construct=f"{rf.name}: parser events")
-        for n in ast.walk(lp):
-            if isinstance(n, (ast.Break, ast.Return)):
-                # a break belongs to the innermost loop around it
-                x = parent(n)
-                while x is not None and not isinstance(x, (ast.For, ast.While, ast.FunctionDef, ast.AsyncFunctionDef)):
-                    x = parent(x)
-                if isinstance(n, ast.Break) and x is not lp:
-                    continue
-                if isinstance(n, ast.Return) and isinstance(x, (ast.FunctionDef, ast.AsyncFunctionDef)) and x is not rf.node:
-                    continue
-                gr = cfg_of(rf)
-                conds = [norm(t.ast)[:60] + (" is true" if l == "T" else " is false") for t, l in gr.control_deps(gr.node_for(n), through_loops=False) if t.kind == "test"]
-                r8.check(False, rf, n, f"the reader stops reading the document ({'break' if isinstance(n, ast.Break) else 'return'}) when {'; '.join(conds[-3:]) or 'reached'}: every element behind that point is missing from the loaded object - records of files (info -sf prints fewer digests than the manifests hold), references to nested histories, later chain entries", construct=f"{rf.name}: event loop left early")
 
     report.not_decided += ["value equality for arbitrary Unicode at run time", "lxml's escaping and parsing (trusted)", "modification dates (written, deliberately not parsed back)"]
 
